@@ -4,10 +4,13 @@ import (
 	"encoding/json"
 	"os"
 	"os/exec"
+	"regexp"
 	"strings"
 	"time"
 
 	"github.com/ohler55/slip"
+	"github.com/ohler55/slip/pkg/generic"
+	"github.com/ohler55/slip/pp"
 	"verifharness/common"
 )
 
@@ -18,6 +21,10 @@ type Job struct {
 	LoadText string   `json:"load_text,omitempty"`
 	Snapshot bool     `json:"snapshot"`
 	Probes   []string `json:"probes,omitempty"`
+	// LoadFormOf: an expression whose value's load form (generic.ObjectLoadForm, what make-load-form returns) is
+	// pretty printed at each of Margins
+	LoadFormOf string `json:"load_form_of,omitempty"`
+	Margins    []int  `json:"margins,omitempty"`
 }
 
 // FormOutcome is the outcome of one top-level form of a loaded text.
@@ -37,6 +44,7 @@ type Result struct {
 	SnapErr   string        `json:"snapshot_error,omitempty"`
 	Probes    []string      `json:"probes"`
 	ProbeMsg  []string      `json:"probe_msg,omitempty"`
+	LoadForms []string      `json:"load_forms,omitempty"` // one text per margin, "!class" on failure
 }
 
 const evalLimit = 5 * time.Second
@@ -135,6 +143,31 @@ func Worker(ctx *common.Ctx) {
 			res.Snapshot = string(s)
 		}
 	}
+	if job.LoadFormOf != "" {
+		o := common.EvalTimeout(scope, job.LoadFormOf, evalLimit)
+		for _, m := range job.Margins {
+			text := ""
+			if o.Err != "" {
+				text = "!" + o.Err
+			} else {
+				func() {
+					defer func() {
+						if r := recover(); r != nil {
+							text = "!" + classify(r).Err
+							if common.Fault(classify(r).Msg) {
+								text = "!fault"
+							}
+						}
+					}()
+					form := generic.ObjectLoadForm(o.Value, true)
+					ps := slip.NewScope()
+					ps.Let(slip.Symbol("*print-right-margin*"), slip.Fixnum(m))
+					text = string(pp.Append(nil, ps, form))
+				}()
+			}
+			res.LoadForms = append(res.LoadForms, text)
+		}
+	}
 	for _, src := range job.Probes {
 		o := common.EvalTimeout(scope, src, evalLimit)
 		res.Probes = append(res.Probes, stripAddr(common.ShowOutcome(o)))
@@ -147,8 +180,11 @@ func Worker(ctx *common.Ctx) {
 	os.Exit(0)
 }
 
+var instAddr = regexp.MustCompile(`#<([a-z0-9*+-]+) [0-9a-f]{8,}>`)
+
 // stripAddr removes the {c000123456} addresses slip prints for functions, methods and instances.
 func stripAddr(s string) string {
+	s = instAddr.ReplaceAllString(s, "#<$1>")
 	for {
 		i := strings.Index(s, " {c0")
 		if i < 0 {
